@@ -8,6 +8,7 @@ extern crate rustc_abi;
 extern crate rustc_data_structures;
 extern crate rustc_driver;
 extern crate rustc_hir;
+extern crate rustc_index;
 extern crate rustc_interface;
 extern crate rustc_middle;
 extern crate rustc_span;
@@ -297,6 +298,7 @@ impl<'tcx> D<'tcx> {
                         self.j.kstr("def", &self.path(uv.def));
                     } else {
                         self.j.kbool("promoted", true);
+                        self.j.kint("pi", uv.promoted.unwrap().as_usize() as i128);
                     }
                 }
                 let is_scalar_ty = ty.is_integral() || ty.is_bool() || ty.is_char();
@@ -687,6 +689,48 @@ impl<'tcx> D<'tcx> {
     }
 
     fn body(&mut self, def: LocalDefId, body: &Body<'tcx>, phase: &str) {
+        self.body_with(def, body, phase, None)
+    }
+
+    fn blocks(&mut self, def: LocalDefId, body: &Body<'tcx>) {
+        self.j.arr();
+        for (_bb, data) in body.basic_blocks.iter_enumerated() {
+            self.j.obj();
+            if data.is_cleanup {
+                self.j.kbool("cleanup", true);
+            }
+            self.j.key("stmts");
+            self.j.arr();
+            for st in data.statements.iter() {
+                if let StatementKind::Assign(b) = &st.kind {
+                    let (p, r) = &**b;
+                    self.j.obj();
+                    self.j.kstr("k", "assign");
+                    self.j.key("p");
+                    self.place(body, p);
+                    self.j.key("r");
+                    self.rvalue(def, body, r);
+                    self.j.end_obj();
+                }
+            }
+            self.j.end_arr();
+            self.j.key("term");
+            match &data.terminator {
+                Some(t) => self.terminator(def, body, t),
+                None => self.j.null(),
+            }
+            self.j.end_obj();
+        }
+        self.j.end_arr();
+    }
+
+    fn body_with(
+        &mut self,
+        def: LocalDefId,
+        body: &Body<'tcx>,
+        phase: &str,
+        promoted: Option<&rustc_index::IndexVec<mir::Promoted, Body<'tcx>>>,
+    ) {
         let tcx = self.tcx;
         let did = def.to_def_id();
         self.j.obj();
@@ -757,6 +801,27 @@ impl<'tcx> D<'tcx> {
             }
         }
         self.j.end_arr();
+        if let Some(ps) = promoted {
+            self.j.key("promoted");
+            self.j.arr();
+            for pb in ps.iter() {
+                self.j.obj();
+                self.j.key("locals");
+                self.j.arr();
+                for d in pb.local_decls.iter() {
+                    let mut s = format!("{}", d.ty);
+                    if s.len() > 240 {
+                        s.truncate(240);
+                    }
+                    self.j.str(&s);
+                }
+                self.j.end_arr();
+                self.j.key("blocks");
+                self.blocks(def, pb);
+                self.j.end_obj();
+            }
+            self.j.end_arr();
+        }
         self.j.key("blocks");
         self.j.arr();
         for (_bb, data) in body.basic_blocks.iter_enumerated() {
@@ -830,10 +895,15 @@ fn dump<'tcx>(tcx: TyCtxt<'tcx>, out_path: &str) {
             DefKind::Fn | DefKind::AssocFn | DefKind::Closure => {}
             _ => continue,
         }
-        let (steal, _promoted) = tcx.mir_promoted(def);
+        let (steal, promoted) = tcx.mir_promoted(def);
         if !steal.is_stolen() {
             let b = steal.borrow();
-            d.body(def, &b, "promoted");
+            if !promoted.is_stolen() {
+                let ps = promoted.borrow();
+                d.body_with(def, &b, "promoted", Some(&ps));
+            } else {
+                d.body(def, &b, "promoted");
+            }
             n_bodies += 1;
         } else {
             n_stolen += 1;
